@@ -362,9 +362,22 @@ def gates(ctx, R):
                 vals = st_.value.args
             else:
                 vals = [getattr(st_, "value", None)]
+            def written_name(e, depth=0):
+                # the loop variable, its text with the quotes stripped, or a local holding one of these
+                if depth > 4 or e is None:
+                    return False
+                if isinstance(e, ast.Name):
+                    if e.id in loopvars:
+                        return True
+                    ds = [a for a in walk_no_nested(cb.node) if isinstance(a, ast.Assign) and any(isinstance(t, ast.Name) and t.id == e.id for t in a.targets)]
+                    return bool(ds) and all(written_name(a.value, depth + 1) for a in ds)
+                if isinstance(e, ast.Call) and isinstance(e.func, ast.Attribute) and e.func.attr == "strip" and len(e.args) <= 1 and not e.keywords \
+                        and all(isinstance(x, ast.Constant) and x.value in ('"', "'", '"\'', ' "') for x in e.args):
+                    return written_name(e.func.value, depth + 1)
+                return False
             for v_ in vals:
-                if isinstance(v_, ast.Name) and v_.id in loopvars:
-                    ctx.holds("E6", "%s adds the required name itself (%s)" % (cb.qualname, v_.id))
+                if written_name(v_):
+                    ctx.holds("E6", "%s adds the required name itself (%s)" % (cb.qualname, norm(v_)[:40]))
                 else:
                     ctx.violation("E6", cb, "registry-foreign-value:%s" % (norm(v_)[:40] if v_ is not None else "?"), "complete_cb loads %s, which is "
                                   "not one of the names written in the require command" % (norm(v_)[:60] if v_ is not None else "?"), node=st_,
